@@ -1,6 +1,7 @@
 import Nstd.Common.Basic
 import Nstd.Hash.Model
 import Nstd.Hash.PtrModel
+import Nstd.Hash.GenStep
 import Nstd.Generated.HashConst
 import Nstd.Generated.HashFn
 /-
@@ -25,7 +26,10 @@ import Nstd.Generated.HashFn
   The class constants (items per block, default capacity) come from `Nstd/Generated/HashConst.lean`, the hash functions
   (`hashstr`, `hashnum`, `hashptr`, hash mode 5) from `Nstd/Generated/HashFn.lean`: both translated from the current sources.
   The driver runs BOTH models in lock-step: the chain-list model (`Model.lean`, `step`) and the pointer-level
-  model (`PtrModel.lean`, `pstep`); a line on which they differ is printed as `MODEL-MISMATCH …`.
+  model in the form `gstep` (`GenStep.lean`): `pstep` of `PtrModel.lean` with every member that tools/gen_hash.py translates
+  from the current headers (`Nstd/Generated/HashLink.lean`) executed AS TRANSLATED – so every line of the correspondence run
+  compares the real code with the translated bodies (`gstep = pstep` on every reachable state is `gstep_eq_pstep`);
+  a line on which the two models differ is printed as `MODEL-MISMATCH …`.
   An op the container does not have / an invalid iterator prints `bad-op` (state unchanged).
 -/
 open Nstd.Common
@@ -88,7 +92,7 @@ def resStr (o : Out) : String :=
 /-- query through the chain-list model (`ptr = false`) or the pointer model -/
 def query (ptr : Bool) (d : DState) (op : Op) : String :=
   if ptr then
-    match Ptr.pstep d.kind (hashFn d.mode) d.pst op with
+    match Ptr.gstep d.kind (hashFn d.mode) d.pst op with
     | some (_, o) => outStr o
     | none => "-"
   else
@@ -232,7 +236,7 @@ def stepLine (d : DState) (ws : List String) : DState × String :=
     match parseOp ws with
     | none => (d, "bad-op")
     | some op =>
-      match step d.kind (hashFn d.mode) d.st op, Ptr.pstep d.kind (hashFn d.mode) d.pst op with
+      match step d.kind (hashFn d.mode) d.st op, Ptr.gstep d.kind (hashFn d.mode) d.pst op with
       | some (st', o), some (pst', po) =>
         let d' := { d with st := st', pst := pst' }
         (d', if o = po then obs d' (resStr o) else s!"MODEL-MISMATCH result list={outStr o} ptr={outStr po}")
